@@ -12,7 +12,9 @@ from fractions import Fraction
 import numpy as np
 import z3
 
-from symx import harness, load, rotation, stubs
+from symx import harness, load, rotation, stubs, smt
+from symx import core as C
+import math
 from symx.arrays import SymArray, to_symarray, _obj
 from symx.core import Sym, explore, lift, real, _real, _coerce
 from symx.plshim import PlShim
@@ -354,11 +356,229 @@ def sec_representations(rec, patches=None):
     rec.fact("representations/translate_euler-involution (54 sequences)", not bad, key="C11/representations/translate_euler", detail={"bad": bad})
 
 
+# ---------------------------------------------------------------------------------------
+# rotation from two axes: the rotation that _get_align_rotator builds for every row of a batch, degenerate rows included
+
+
+def _mentions(t, sub):
+    seen, stack = set(), [t]
+    while stack:
+        u = stack.pop()
+        if u.get_id() in seen:
+            continue
+        seen.add(u.get_id())
+        if z3.eq(u, sub) or (z3.is_app(u) and u.decl().name() in ("Atan2", "Sqrt")):
+            return True
+        stack.extend(u.children())
+    return False
+
+
+def _apps(t, name):
+    out, seen, stack = [], set(), [t]
+    while stack:
+        u = stack.pop()
+        if u.get_id() in seen:
+            continue
+        seen.add(u.get_id())
+        if z3.is_app(u) and u.decl().name() == name:
+            out.append(u)
+        stack.extend(u.children())
+    return out
+
+
+class RecRot:
+    """Rotation stand-in that records the rotation vectors it is built from (row-wise)"""
+
+    def __init__(self, rotvec):
+        self.rotvec = rotvec
+
+    @classmethod
+    def from_rotvec(cls, rotvec, degrees=False):
+        return cls(to_symarray(rotvec))
+
+    @classmethod
+    def identity(cls, num=None):
+        return cls(to_symarray(np.zeros((num or 1, 3), dtype=object)))
+
+
+def replay_axes(cex):
+    """installed library: from_axes on batches mixing generic, anti-parallel and parallel rows must reproduce the axes"""
+    from acryo import Molecules
+
+    rows_z = [[0.0, 0.6, 0.8], [-1, 0, 0], [1, 0, 0], [0, 0, 1], [-1, 0, 0], [0.6, 0, -0.8]]
+    rows_y = [[0, 0.8, -0.6], [0, 1, 0], [0, 1, 0], [0, -1, 0], [0, -1, 0], [0, -1, 0]]
+    bad = []
+    import itertools as it
+
+    for n in (1, 2, 3):
+        for idx in it.permutations(range(len(rows_z)), n):
+            z, y = np.array([rows_z[i] for i in idx], dtype=float), np.array([rows_y[i] for i in idx], dtype=float)
+            try:
+                m = Molecules.from_axes(np.zeros((n, 3)), z=z, y=y)
+                ok = np.allclose(m.z, z, atol=1e-6) and np.allclose(m.y, y, atol=1e-6)
+            except Exception as e:
+                ok = False
+                bad.append({"rows": list(idx), "raised": repr(e)[:100]})
+                continue
+            if not ok:
+                bad.append({"rows": list(idx), "z_given": z.tolist(), "z_of_result": np.round(m.z, 6).tolist(), "y_given": y.tolist(), "y_of_result": np.round(m.y, 6).tolist()})
+    return len(bad) > 0, {"n_wrong_batches": len(bad), "examples": bad[:3]}
+
+
+def sec_align_rotator(rec, patches=None):
+    from symx import angles
+
+    L = load.load(MODS, overrides={"Rotation": RecRot, "pl": PlShim()}, patches=patches)
+    MR = L["acryo.molecules._rotation"]
+    rec.encodes("acryo/molecules/_rotation.py:_get_align_rotator")
+    rec.assume("sqrt and arctan2 are uninterpreted (Sqrt(t)^2 = t, Sqrt >= 0); Rotation.from_rotvec / identity are recorded row-wise: the rotation of row i is determined by rotation vector i; pi is the float 3.14159...")
+    src = [[0, 1, 0]]
+    g = [real(f"d{a}") for a in range(3)]
+    unit = [g[0].e * g[0].e + g[1].e * g[1].e + g[2].e * g[2].e == 1]
+    # generic: neither parallel nor anti-parallel to src within the code's own tolerance (1e-6 per component)
+    tol = Fraction(1, 10 ** 6)
+    generic = [z3.Or(z3.Or(g[0].e >= tol, g[0].e <= -tol), z3.Or(g[2].e >= tol, g[2].e <= -tol))]
+    rows = {"generic": g, "anti": [0, -1, 0], "par": [0, 1, 0]}
+    C.SQRT_MODE["opaque"] = True
+    angles.TRIG_MODE["opaque"] = True
+    try:
+        batches = [("generic",), ("anti",), ("par",), ("generic", "anti"), ("anti", "generic"), ("generic", "par"), ("par", "anti"), ("anti", "par", "generic"), ("generic", "generic2")]
+        g2 = [real(f"e{a}") for a in range(3)]
+        rows["generic2"] = g2
+        for b in batches:
+            hyps = list(unit) + list(generic)
+            if "generic2" in b:
+                hyps += [g2[0].e * g2[0].e + g2[1].e * g2[1].e + g2[2].e * g2[2].e == 1, z3.Or(z3.Or(g2[0].e >= tol, g2[0].e <= -tol), z3.Or(g2[2].e >= tol, g2[2].e <= -tol))]
+            tag = f"align_rotator[batch={'+'.join(b)}]"
+
+            def run():
+                dst = to_symarray([rows[k] for k in b])
+                return MR._get_align_rotator(src, dst)
+
+            for pi, p in enumerate(explore(run, assumptions=hyps, max_paths=60)):
+                h = hyps + [p.condition()]
+                if not p.ok:
+                    ok, det = replay_axes({})
+                    rec.fact(f"{tag}/path{pi}/runs", False, key="C11/axes/align-rotator-raises", detail={"exc": repr(p.exc)[:300], **det}, reproduced=ok)
+                    continue
+                rv = _obj(to_symarray(p.result.rotvec))
+                okshape = rv.shape == (len(b), 3)
+                rec.fact(f"{tag}/path{pi}/one-rotation-per-row", okshape, key="C11/axes/align-rotator-rows", detail={"shape": list(rv.shape)}, reproduced=True if okshape else replay_axes({})[0])
+                if not okshape:
+                    continue
+                for i, kind in enumerate(b):
+                    v = [zr(rv[i][a]) for a in range(3)]
+                    n2 = v[0] * v[0] + v[1] * v[1] + v[2] * v[2]
+                    if kind == "anti":
+                        # a half turn about an axis orthogonal to src: |rotvec| = pi, rotvec . src = 0
+                        pi2 = Fraction(math.pi) * Fraction(math.pi)
+                        goal = z3.And(n2 >= pi2 - Fraction(1, 10 ** 6), n2 <= pi2 + Fraction(1, 10 ** 6), v[1] <= Fraction(1, 10 ** 9), v[1] >= -Fraction(1, 10 ** 9))
+                        rec.query(f"{tag}/path{pi}/row{i}(anti-parallel)/half-turn-about-an-orthogonal-axis", h, goal, key="C11/axes/anti-parallel-row", replay=replay_axes, twin=False, nonlinear=True)
+                    elif kind == "par":
+                        rec.query(f"{tag}/path{pi}/row{i}(parallel)/identity", h, n2 == 0, key="C11/axes/parallel-row", replay=replay_axes, twin=False, nonlinear=True)
+                    else:
+                        d = rows[kind]
+                        # rotation vector = (src x dst)/|src x dst| * atan2(|src x dst|, src . dst)
+                        cr = [d[2].e, z3.RealVal(0), -d[0].e]  # (0,1,0) x d
+                        nrm = C.sym_sqrt(Sym(cr[0] * cr[0] + cr[2] * cr[2])).e
+                        th = angles._ATAN2(nrm, d[1].e)
+                        goal = z3.And(*[v[a] == cr[a] / nrm * th for a in range(3)])
+                        rec.query(f"{tag}/path{pi}/row{i}(generic)/axis-angle-of-the-shortest-rotation", h + [nrm * nrm == cr[0] * cr[0] + cr[2] * cr[2], nrm > 0], goal, key="C11/axes/generic-row", replay=replay_axes, twin=False, nonlinear=True)
+                        # independent of the formula: with theta the angle whose (sin, cos) = (|src x dst|, src . dst), the vector v/theta is a unit axis n and
+                        # Rodrigues' rotation about n by theta maps src to dst.  theta and |src x dst| become plain real variables for the polynomial solver.
+                        TH, NR = z3.Real("THETA"), z3.Real("NORM")
+                        def sub(t):
+                            # every Sqrt(.) application whose argument equals |src x dst|^2 -> NORM, every Atan2(Sqrt.., src.dst) -> THETA
+                            pairs = []
+                            for u in _apps(t, "Atan2"):
+                                pairs.append((u, TH))
+                            t = z3.substitute(t, *pairs) if pairs else t
+                            pairs = [(u, NR) for u in _apps(t, "Sqrt") if smt.ring_identity(u.children()[0] == d[0].e * d[0].e + d[2].e * d[2].e)]
+                            return z3.substitute(t, *pairs) if pairs else t
+
+                        n = [sub(v[a]) / TH for a in range(3)]
+                        sv = [z3.RealVal(0), z3.RealVal(1), z3.RealVal(0)]
+                        cs, sn = d[1].e, NR
+                        nxs = [n[1] * sv[2] - n[2] * sv[1], n[2] * sv[0] - n[0] * sv[2], n[0] * sv[1] - n[1] * sv[0]]
+                        nds = n[0] * sv[0] + n[1] * sv[1] + n[2] * sv[2]
+                        img = [sv[a] * cs + nxs[a] * sn + n[a] * nds * (1 - cs) for a in range(3)]
+                        hy = [x for x in h if not _mentions(x, th)] + [NR * NR == d[0].e * d[0].e + d[2].e * d[2].e, NR > 0, TH != 0]
+                        rec.query(f"{tag}/path{pi}/row{i}(generic)/rotvec-over-theta-is-a-unit-axis", hy, n[0] * n[0] + n[1] * n[1] + n[2] * n[2] == 1, key="C11/axes/generic-row-unit-axis", replay=replay_axes, twin=False, nonlinear=True)
+                        rec.query(f"{tag}/path{pi}/row{i}(generic)/rotation-about-it-by-theta-maps-src-to-dst", hy, z3.And(*[img[a] == d[a].e for a in range(3)]), key="C11/axes/generic-row-maps-src-to-dst", replay=replay_axes, twin=False, nonlinear=True)
+    finally:
+        C.SQRT_MODE["opaque"] = False
+        angles.TRIG_MODE["opaque"] = False
+
+
+class PiRot(rotation.SymRotation):
+    """SymRotation whose from_rotvec understands the two exact cases met with axis-aligned frames: the zero vector (identity) and
+    u * pi with |u| = 1 (half turn about u: quaternion (u, 0)); the unit-length condition is returned as an obligation"""
+
+    obligations = []
+
+    @classmethod
+    def from_rotvec(cls, rotvec, degrees=False):
+        v = _obj(to_symarray(rotvec)).reshape(-1, 3)
+        PI = Fraction(math.pi)
+        rows = []
+        for r in v:
+            if all(not C.is_symbolic(c) and float(c) == 0 for c in r):
+                rows.append([0, 0, 0, 1])
+                continue
+            u = [c / PI for c in r]
+            cls.obligations.append(sum((zr(c) * zr(c) for c in u), z3.RealVal(0)) == 1)
+            rows.append([u[0], u[1], u[2], 0])
+        return cls(rows, normalize=False)
+
+
+def sec_axes_degenerate(rec, patches=None):
+    """axes_to_rotator on frames whose axes are +-ey / +-ex (every step of the construction is the parallel or the anti-parallel case),
+    signs symbolic, alone and in two-row batches: the rotation must map ez->z... i.e. R.apply([1,0,0]) = z and R.apply([0,1,0]) = y (z,y,x order)"""
+    from symx import angles
+
+    L = load.load(MODS, overrides={"Rotation": PiRot, "pl": PlShim()}, patches=patches)
+    MR = L["acryo.molecules._rotation"]
+    angles.TRIG_MODE["opaque"] = True  # a degenerate row sent through the generic branch yields a vector that is not u*pi: reported by the unit-axis obligation
+    rec.encodes("acryo/molecules/_rotation.py:axes_to_rotator", "acryo/molecules/_rotation.py:_get_align_rotator", "acryo/molecules/_rotation.py:_extract_orthogonal", "acryo/molecules/_rotation.py:_normalize")
+    rec.assume("sqrt exact (fresh s with s^2 = t, s >= 0); Rotation.from_rotvec(u*pi) is the half turn about the unit vector u (float pi read as the same constant on both sides)")
+    for nrows in (1, 2):
+        sy = [real(f"sy{i}") for i in range(nrows)]
+        sz = [real(f"sz{i}") for i in range(nrows)]
+        hyps = [z3.Or(v.e == 1, v.e == -1) for v in sy + sz]
+        tag = f"axes-degenerate[rows={nrows}]"
+
+        def run():
+            del PiRot.obligations[:]
+            # one path per sign pattern: the solver pins each sign (sy > 0 and (sy = 1 or sy = -1) => sy = 1) before the real code runs
+            yv = [1 if bool(v > 0) else -1 for v in sy]
+            zv = [1 if bool(v > 0) else -1 for v in sz]
+            y = to_symarray([[0, yv[i], 0] for i in range(nrows)])
+            z = to_symarray([[zv[i], 0, 0] for i in range(nrows)])
+            R = MR.axes_to_rotator(z, y)
+            return R.apply([1, 0, 0]), R.apply([0, 1, 0]), list(PiRot.obligations)
+
+        for pi, p in enumerate(explore(run, assumptions=hyps, max_paths=200)):
+            h = hyps + [p.condition()]
+            if not p.ok:
+                ok, det = replay_axes({})
+                rec.fact(f"{tag}/path{pi}/runs", False, key="C11/axes/degenerate-raises", detail={"exc": repr(p.exc)[:300], **det}, reproduced=ok)
+                continue
+            zz, yy, obl = p.result
+            zz, yy = _obj(to_symarray(zz)).reshape(-1, 3), _obj(to_symarray(yy)).reshape(-1, 3)
+            for k, o in enumerate(obl):
+                rec.query(f"{tag}/path{pi}/half-turn-axis{k}-is-a-unit-vector", h, o, key="C11/axes/degenerate-unit-axis", replay=replay_axes, twin=False, nonlinear=True)
+            for i in range(nrows):
+                rec.query(f"{tag}/path{pi}/row{i}/z-axis-of-the-result-is-the-given-z", h, z3.And(zr(zz[i][0]) == sz[i].e, zr(zz[i][1]) == 0, zr(zz[i][2]) == 0), key="C11/axes/degenerate-z", replay=replay_axes, nonlinear=True,
+                          names={f"sy{j}" for j in range(nrows)} | {f"sz{j}" for j in range(nrows)})
+                rec.query(f"{tag}/path{pi}/row{i}/y-axis-of-the-result-is-the-given-y", h, z3.And(zr(yy[i][0]) == 0, zr(yy[i][1]) == sy[i].e, zr(yy[i][2]) == 0), key="C11/axes/degenerate-y", replay=replay_axes, nonlinear=True,
+                          names={f"sy{j}" for j in range(nrows)} | {f"sz{j}" for j in range(nrows)})
+
+
 def sections(tier):
     R = rotation.R30
     qs = [R[9], R[10], R[1], R[4]] if quick(tier) else R
     S = [("axes", "checks.c11", "sec_axes", {}), ("inplace", "checks.c11", "sec_inplace", {}), ("coords", "checks.c11", "sec_coords", {}),
-         ("representations", "checks.c11", "sec_representations", {})]
+         ("representations", "checks.c11", "sec_representations", {}), ("align-rotator", "checks.c11", "sec_align_rotator", {}), ("axes-degenerate", "checks.c11", "sec_axes_degenerate", {})]
     for i, q in enumerate(qs):
         S.append((f"motion-{i}", "checks.c11", "sec_motion", {"qm": q}))
     return S
@@ -368,6 +588,13 @@ _MC = "acryo.molecules.core"
 _MR = "acryo.molecules._rotation"
 _Q = {"qm": rotation.R30[9]}
 MUTANTS = [
+    ("axes:special-cases-decided-for-the-whole-batch (defect fixed by 'fix: rotation from two axes...')", "checks.c11", "sec_align_rotator", {},
+     {_MR: [("antiparallel = np.all(np.abs(src + dst) < 1e-6, axis=1)", "antiparallel = np.all(np.abs(src + dst) < 1e-6) & np.ones(len(dst), dtype=bool)")]}),
+    ("axes:second-half-turn-about-an-arbitrary-axis (same fix)", "checks.c11", "sec_axes_degenerate", {}, {_MR: [("rot_z = _get_align_rotator([[1, 0, 0]], z0_trans, antiparallel_axis=[0, 1, 0])", "rot_z = _get_align_rotator([[1, 0, 0]], z0_trans)")]}),
+    ("axes:cross-product-reversed", "checks.c11", "sec_align_rotator", {}, {_MR: [("    cross = np.cross(src, dst)\n", "    cross = np.cross(dst, src)\n")]}),
+    ("axes:atan2-arguments-swapped", "checks.c11", "sec_align_rotator", {}, {_MR: [("theta = np.arctan2(sin, cos)", "theta = np.arctan2(cos, sin)")]}),
+    ("axes:quarter-turn-for-antiparallel", "checks.c11", "sec_align_rotator", {}, {_MR: [("rotvec[antiparallel] = axis / np.linalg.norm(axis) * np.pi", "rotvec[antiparallel] = axis / np.linalg.norm(axis) * np.pi / 2")]}),
+    ("axes:z-not-orthogonalised", "checks.c11", "sec_axes_degenerate", {}, {_MR: [("    rot_y = _get_align_rotator([[0, 1, 0]], y0)\n", "    rot_y = _get_align_rotator([[0, 1, 0]], -y0)\n")]}),
     ("axes:x-z-swapped", "checks.c11", "sec_axes", {}, {_MC: [('        """Vectors of x-axis."""\n        return self._rotator.apply(np.array([0.0, 0.0, 1.0]))', '        """Vectors of x-axis."""\n        return self._rotator.apply(np.array([1.0, 0.0, 0.0]))')]}),
     ("axes:cross-sign", "checks.c11", "sec_axes", {}, {_MC: [("    return -np.cross(x, y, axis=axis)  # type: ignore", "    return np.cross(x, y, axis=axis)  # type: ignore")]}),
     ("motion:rotate_by-right-composition", "checks.c11", "sec_motion", _Q, {_MC: [("        rot = rotator * self._rotator\n", "        rot = self._rotator * rotator\n")]}),
